@@ -5,8 +5,8 @@
   Two layers, as for G.711:
   * `Spec.*`   : the binary interchange format of IEEE 754-2008 §3.4 (field layout, value of a bit
                  string, byte strings of both orders), written from the standard.
-  * lib-shaped : `float32_be_read … double64_le_write` as the C computes them (bug for bug: the
-                 `fabs (in) < 1e-30` flush of the writers, exponent field 0 and all-ones of the readers),
+  * lib-shaped : `float32_be_read … double64_le_write` as the C computes them (bug for bug; the rules before the `fix:` commits
+                 — `fabs (in) < 1e-30` flush of the writers, hidden bit for exponent field 0 in the readers — are kept as `…Old`),
                  `f2bf_array`/`bf2f_array` + `endswap_*_array` as the `replace_*` paths use them,
                  `ENDSWAP_16/32/64`, `psf_put_be*`, `psf_get_be*/le*`.
 
@@ -64,22 +64,30 @@ end Spec
 
 /-! ## float32.c -/
 
-/-- `float32_be_read` / `float32_le_read` (float32.c:262–320) after the byte indices are resolved:
+/-- `float32_be_read` / `float32_le_read` (float32.c) after the byte indices are resolved:
     `c0` carries sign and the high exponent bits, `c3` the low mantissa byte.
-    `x & 0x80`, `x & 0x7F`, `<<`, `|` on bytes are written as `/`, `%`, `*`, `+`. -/
-def f32ReadCore (c0 c1 c2 c3 : Byte) : Nat :=
+    `x & 0x80`, `x & 0x7F`, `<<`, `|` on bytes are written as `/`, `%`, `*`, `+`.
+    `old = true` is the code before the two reader repairs (kept for the `…_old_rule` theorems):
+    `return 0.0` whatever the sign bit, and `mantissa |= 0x800000 ; exponent = exponent ? exponent - 127 : 0`. -/
+def f32ReadCoreWith (old : Bool) (c0 c1 c2 c3 : Byte) : Nat :=
   let negative := c0 / 128 % 2
   let exponent := (c0 % 128) * 2 + c1 / 128 % 2
   let mantissa := (c1 % 128) * 65536 + (c2 % 256) * 256 + c3 % 256
-  if exponent = 0 ∧ mantissa = 0 then 0            -- `return 0.0` : +0 whatever the sign bit says
+  if exponent = 0 ∧ mantissa = 0 then
+    (if old then 0 else if negative = 1 then 0x80000000 else 0)      -- `return negative ? -0.0 : 0.0` (old: `return 0.0`)
   else
-    let mantissa := mantissa + 0x800000             -- `mantissa |= 0x800000` (bit 23 is clear), also when the field E is 0
-    let e : Int := if exponent ≠ 0 then (exponent : Int) - 127 else 0   -- `exponent ? exponent - 127 : 0`
-    -- fvalue = (float) mantissa / (float) 0x800000 : exact, in [1, 2);  `fvalue *= -1`
-    let fv : Dy := ⟨negative = 1, mantissa, -23⟩
+    -- `if (exponent) { mantissa |= 0x800000 ; exponent -= 127 ; } else exponent = -126 ;`
+    let me : Nat × Int :=
+      if old then (mantissa + 0x800000, if exponent ≠ 0 then (exponent : Int) - 127 else 0)
+      else if exponent ≠ 0 then (mantissa + 0x800000, (exponent : Int) - 127) else (mantissa, -126)
+    -- fvalue = (float) mantissa / (float) 0x800000 : exact (mantissa ≠ 0 here);  `fvalue *= -1`
+    let fv : Dy := ⟨negative = 1, me.1, -23⟩
     -- `fvalue *= pow (2.0, e)` / `fvalue /= pow (2.0, -e)`: formed in double (exact: 24-bit significand, |e| ≤ 128),
-    -- converted to float by the assignment: one rounding to binary32, overflow gives ±Inf (e = 128)
-    f32.ofDy ⟨fv.neg, fv.m, fv.e + e⟩
+    -- converted to float by the assignment: one rounding to binary32 (exact for every finite pattern), overflow gives ±Inf (e = 128)
+    f32.ofDy ⟨fv.neg, fv.m, fv.e + me.2⟩
+
+def f32ReadCore := f32ReadCoreWith false
+def f32ReadCoreOld := f32ReadCoreWith true
 
 def f32BeRead : List Byte → Nat
   | [a, b, c, d] => f32ReadCore a b c d
@@ -87,12 +95,25 @@ def f32BeRead : List Byte → Nat
 def f32LeRead : List Byte → Nat
   | [a, b, c, d] => f32ReadCore d c b a
   | _ => 0
+def f32BeReadOld : List Byte → Nat
+  | [a, b, c, d] => f32ReadCoreOld a b c d
+  | _ => 0
+def f32LeReadOld : List Byte → Nat
+  | [a, b, c, d] => f32ReadCoreOld d c b a
+  | _ => 0
 
-/-- the `double` constant `1e-30` (0x39B4484BFEEBC2A0 = 5708990770823840 · 2^-152) -/
-def flushBound : Dy := ⟨false, 5708990770823840, -152⟩
+/-- the `double` constant `1e-30` (0x39B4484BFEEBC2A0 = 5708990770823840 · 2^-152): the writers' threshold before the repair -/
+def flushBoundOld : Dy := ⟨false, 5708990770823840, -152⟩
 
-/-- `fabs (in) < 1e-30` for a finite argument (the comparison is made in double; binary32 widens exactly) -/
-def flushes (f : Fmt) (b : Nat) : Bool := f.isFinite b && (f.toDy b).abs.lt flushBound
+/-- `FLT_MIN` = 2^-126 / `DBL_MIN` = 2^-1022: the smallest normal number of the format -/
+def flushBound (f : Fmt) : Dy := ⟨false, 1, 1 - (f.bias : Int)⟩
+
+/-- `fabs (in) < FLT_MIN` (`DBL_MIN`) for a finite argument (the comparison is made in double; binary32 widens exactly):
+    true exactly for zeros and subnormals (theorem `flushes_iff_not_normal`) -/
+def flushes (f : Fmt) (b : Nat) : Bool := f.isFinite b && (f.toDy b).abs.lt (flushBound f)
+
+/-- `fabs (in) < 1e-30`: the rule before the repair -/
+def flushesOld (f : Fmt) (b : Nat) : Bool := f.isFinite b && (f.toDy b).abs.lt flushBoundOld
 
 /-- `frexp` of a non-zero finite value m·2^e: fraction m / 2^L in [1/2, 1), exponent e + L, L = bitLen m.
     Returned as (L, exponent). -/
@@ -102,21 +123,23 @@ def frexpOf (d : Dy) : Nat × Int := (bitLen d.m, d.e + (bitLen d.m : Int))
     that leaves the four zero bytes of the `memset`.
     Inf and NaN (outside every theorem, kept for the correspondence): glibc `frexp` returns the argument and
     exponent 0, `(int) in` is the x86-64 "integer indefinite" 0x80000000 whose low 23 bits are 0. -/
-def f32WriteFields (b : Nat) : Option (Nat × Nat × Nat) :=
+def f32WriteFieldsWith (fl : Nat → Bool) (b : Nat) : Option (Nat × Nat × Nat) :=
   if !f32.isFinite b then
     some ((if f32.frac b = 0 ∧ f32.sign b then 1 else 0), 126, 0)      -- `in < 0.0` is false for NaN
-  else if flushes f32 b then none
+  else if fl b then none
   else
     let d := f32.toDy b
     let negative := if d.neg then 1 else 0                              -- `if (in < 0.0) { in *= -1.0 ; negative = 1 ; }`
     let (L, ex) := frexpOf d                                            -- `in = frexp (in, &exponent)`
-    let exponent := (ex + 126).toNat                                    -- `exponent += 126`  (≥ 27 here)
+    let exponent := (ex + 126).toNat                                    -- `exponent += 126`  (≥ 1 here)
     let scaled := d.m * 0x1000000 / 2 ^ L                               -- `(int) (in * (float) 0x1000000)` truncates
     some (negative, exponent, scaled % 0x800000)                        -- `& 0x7FFFFF`
 
+def f32WriteFields := f32WriteFieldsWith (flushes f32)
+
 /-- the four output bytes, most significant first (`out [0..3]` of `float32_be_write`) -/
-def f32WriteBytes (b : Nat) : List Byte :=
-  match f32WriteFields b with
+def f32WriteBytesWith (fl : Nat → Bool) (b : Nat) : List Byte :=
+  match f32WriteFieldsWith fl b with
   | none => [0, 0, 0, 0]
   | some (negative, exponent, mantissa) =>
     [negative * 128 + exponent / 2 % 128,                               -- `|= 0x80`, `|= (exponent >> 1) & 0x7F`
@@ -124,29 +147,42 @@ def f32WriteBytes (b : Nat) : List Byte :=
      mantissa / 256 % 256,
      mantissa % 256]
 
+def f32WriteBytes := f32WriteBytesWith (flushes f32)
 def f32BeWrite (b : Nat) : List Byte := f32WriteBytes b
 def f32LeWrite (b : Nat) : List Byte := (f32WriteBytes b).reverse
+/-- the writers before the repair (`fabs (in) < 1e-30`) -/
+def f32BeWriteOld (b : Nat) : List Byte := f32WriteBytesWith (flushesOld f32) b
+def f32LeWriteOld (b : Nat) : List Byte := (f32WriteBytesWith (flushesOld f32) b).reverse
 
 /-! ## double64.c -/
 
-/-- the floating-point part of `double64_*_read`, from the extracted integers -/
-def f64ReadValue (negative exponent upper lower : Nat) : Nat :=
-  if exponent = 0 ∧ upper = 0 ∧ lower = 0 then 0                        -- `return 0.0`
+/-- the floating-point part of `double64_*_read`, from the extracted integers.
+    `old = true`: before the reader repairs (`return 0.0`; `dvalue += 0x10000000 ; exponent -= 0x3FF` unconditionally). -/
+def f64ReadValueWith (old : Bool) (negative exponent upper lower : Nat) : Nat :=
+  if exponent = 0 ∧ upper = 0 ∧ lower = 0 then
+    (if old then 0 else if negative = 1 then 0x8000000000000000 else 0)  -- `return negative ? -0.0 : 0.0`
   else
-    -- dvalue = upper + lower / 2^24 ; dvalue += 0x10000000 ; dvalue /= 0x10000000 : all exact (≤ 53 bits), in [1, 2)
-    let dv : Dy := ⟨negative = 1, 0x10000000000000 + upper * 16777216 + lower, -52⟩
-    let e : Int := (exponent : Int) - 0x3FF                             -- no special case for the field E = 0
-    -- `dvalue *= pow (2.0, e)` (e = 1024: pow gives +Inf, the product ±Inf) or `dvalue /= pow (2.0, -e)`
-    -- (e = -1023: the quotient is subnormal and is rounded): one rounding to binary64
+    -- dvalue = upper + lower / 2^24 ; `if (exponent) { dvalue += 0x10000000 ; exponent -= 0x3FF ; } else exponent = -0x3FE ;`
+    -- dvalue /= 0x10000000 : all exact (≤ 53 bits)
+    let hidden : Nat := if old ∨ exponent ≠ 0 then 0x10000000000000 else 0
+    let dv : Dy := ⟨negative = 1, hidden + upper * 16777216 + lower, -52⟩
+    let e : Int := if old ∨ exponent ≠ 0 then (exponent : Int) - 0x3FF else -0x3FE
+    -- `dvalue *= pow (2.0, e)` (e = 1024: pow gives +Inf, the product ±Inf) or `dvalue /= pow (2.0, -e)`:
+    -- one rounding to binary64 (exact for every finite pattern under the current rule)
     f64.ofDy ⟨dv.neg, dv.m, dv.e + e⟩
 
+def f64ReadValue := f64ReadValueWith false
+
 /-- `double64_be_read` / `double64_le_read` (double64.c:283–345); `c0` = sign / high exponent byte. -/
-def f64ReadCore (c0 c1 c2 c3 c4 c5 c6 c7 : Byte) : Nat :=
+def f64ReadCoreWith (old : Bool) (c0 c1 c2 c3 c4 c5 c6 c7 : Byte) : Nat :=
   let negative := c0 / 128 % 2
   let exponent := (c0 % 128) * 16 + c1 / 16 % 16
   let upper := (c1 % 16) * 16777216 + (c2 % 256) * 65536 + (c3 % 256) * 256 + c4 % 256
   let lower := (c5 % 256) * 65536 + (c6 % 256) * 256 + c7 % 256
-  f64ReadValue negative exponent upper lower
+  f64ReadValueWith old negative exponent upper lower
+
+def f64ReadCore := f64ReadCoreWith false
+def f64ReadCoreOld := f64ReadCoreWith true
 
 def f64BeRead : List Byte → Nat
   | [a, b, c, d, e, f, g, h] => f64ReadCore a b c d e f g h
@@ -154,14 +190,20 @@ def f64BeRead : List Byte → Nat
 def f64LeRead : List Byte → Nat
   | [a, b, c, d, e, f, g, h] => f64ReadCore h g f e d c b a
   | _ => 0
+def f64BeReadOld : List Byte → Nat
+  | [a, b, c, d, e, f, g, h] => f64ReadCoreOld a b c d e f g h
+  | _ => 0
+def f64LeReadOld : List Byte → Nat
+  | [a, b, c, d, e, f, g, h] => f64ReadCoreOld h g f e d c b a
+  | _ => 0
 
 /-- sign, biased exponent, upper 29-bit integer (`psf_lrint (floor (in * 0x20000000))`, hidden bit at 2^28)
     and lower 24-bit integer (`psf_lrint (floor (fmod (in, 1.0) * 0x1000000))`).
     Inf / NaN: exponent 0 + 1022, both `psf_lrint` calls answer 0x80000000 (`cvtsd2si`), whose bits 0..27 are 0. -/
-def f64WriteFields (b : Nat) : Option (Nat × Nat × Nat × Nat) :=
+def f64WriteFieldsWith (fl : Nat → Bool) (b : Nat) : Option (Nat × Nat × Nat × Nat) :=
   if !f64.isFinite b then
     some ((if f64.frac b = 0 ∧ f64.sign b then 1 else 0), 1022, 0, 0)
-  else if flushes f64 b then none
+  else if fl b then none
   else
     let d := f64.toDy b
     let negative := if d.neg then 1 else 0
@@ -172,8 +214,10 @@ def f64WriteFields (b : Nat) : Option (Nat × Nat × Nat × Nat) :=
     let lo := (scaled % 2 ^ L) * 0x1000000 / 2 ^ L
     some (negative, exponent, hi, lo)
 
-def f64WriteBytes (b : Nat) : List Byte :=
-  match f64WriteFields b with
+def f64WriteFields := f64WriteFieldsWith (flushes f64)
+
+def f64WriteBytesWith (fl : Nat → Bool) (b : Nat) : List Byte :=
+  match f64WriteFieldsWith fl b with
   | none => [0, 0, 0, 0, 0, 0, 0, 0]
   | some (negative, exponent, hi, lo) =>
     [negative * 128 + exponent / 16 % 128,                              -- `|= 0x80`, `|= (exponent >> 4) & 0x7F`
@@ -181,8 +225,11 @@ def f64WriteBytes (b : Nat) : List Byte :=
      hi / 65536 % 256, hi / 256 % 256, hi % 256,
      lo / 65536 % 256, lo / 256 % 256, lo % 256]
 
+def f64WriteBytes := f64WriteBytesWith (flushes f64)
 def f64BeWrite (b : Nat) : List Byte := f64WriteBytes b
 def f64LeWrite (b : Nat) : List Byte := (f64WriteBytes b).reverse
+def f64BeWriteOld (b : Nat) : List Byte := f64WriteBytesWith (flushesOld f64) b
+def f64LeWriteOld (b : Nat) : List Byte := (f64WriteBytesWith (flushesOld f64) b).reverse
 
 /-! ## sfendian.h — byte-order helpers
 
@@ -200,6 +247,13 @@ def endswap64 (x : Nat) : Nat :=
 def bswap16 (x : BitVec 16) : BitVec 16 := BitVec.ofNat 16 (endswap16 x.toNat)
 def bswap32 (x : BitVec 32) : BitVec 32 := BitVec.ofNat 32 (endswap32 x.toNat)
 def bswap64 (x : BitVec 64) : BitVec 64 := BitVec.ofNat 64 (endswap64 x.toNat)
+
+/-- BitVec-level definitions: the byte fields re-assembled in reverse order (proved equal to `bswap*` in SfProps/C20Ieee.lean) -/
+def bvswap16 (x : BitVec 16) : BitVec 16 := x.extractLsb' 0 8 ++ x.extractLsb' 8 8
+def bvswap32 (x : BitVec 32) : BitVec 32 := x.extractLsb' 0 8 ++ x.extractLsb' 8 8 ++ x.extractLsb' 16 8 ++ x.extractLsb' 24 8
+def bvswap64 (x : BitVec 64) : BitVec 64 :=
+  x.extractLsb' 0 8 ++ x.extractLsb' 8 8 ++ x.extractLsb' 16 8 ++ x.extractLsb' 24 8 ++
+  x.extractLsb' 32 8 ++ x.extractLsb' 40 8 ++ x.extractLsb' 48 8 ++ x.extractLsb' 56 8
 
 /-- `(uint8_t) (value >> k)` -/
 def byteAt (value : Int) (k : Nat) : Byte := wrapU 8 (asr value k)
